@@ -1,5 +1,6 @@
 import LekkerVerif.Proofs.WiringDetach
 import LekkerVerif.Proofs.NamesSpec
+import LekkerVerif.Proofs.WiringRaise
 
 /-! # C16 — wiring calls are validated and atomic
 
@@ -137,3 +138,27 @@ theorem C16_expand_examples :
     (buildTable (expandPins [⟨"a", none⟩, ⟨"b", none⟩] ["TE", "TM"])).isSome = true := by decide
 
 end Names
+
+
+/-! ### raise-all (`Solver.maps_all_pins`, `Wiring.raiseAll`: run by the driver step by step against the real solver) -/
+
+namespace Wiring
+
+/-- **a name is never rebound**: whatever a name pointed at before raise-all - mapped by hand or earlier - it points at
+afterwards, whether the call succeeds or is rejected; the other wiring tables are untouched -/
+theorem C16_raise_never_rebinds (nameOf : Pin → Nat) (w : W) (hk : KeysNodup w.mapping) :
+    (∀ n p, (n, p) ∈ w.mapping → ∀ q, (n, q) ∈ (raiseAll nameOf w).1.mapping → q = p) ∧
+    (∀ e ∈ w.mapping, e ∈ (raiseAll nameOf w).1.mapping) ∧
+    KeysNodup (raiseAll nameOf w).1.mapping ∧
+    (let w' := (raiseAll nameOf w).1; w'.heap = w.heap ∧ w'.structs = w.structs ∧ w'.conns = w.conns ∧ w'.clist = w.clist ∧ w'.free = w.free) :=
+  ⟨raiseAll_never_rebinds nameOf w hk, raiseAll_keeps_mapping nameOf w, raiseAll_keys_nodup nameOf w hk, raiseAll_only_mapping nameOf w⟩
+
+/-- **rejected exactly on a name clash**: raise-all raises iff some free pin is left unexposed while its own name is already
+a key of the mapping (taken by another pin - by hand, earlier, or by a like-named pin raised just before) -/
+theorem C16_raise_rejects_exactly_on_clash (nameOf : Pin → Nat) (w : W) :
+    ((raiseAll nameOf w).2 = .exception ↔
+      ∃ p ∈ w.free, ¬ (∃ e ∈ (raiseAll nameOf w).1.mapping, e.2 = p) ∧ ∃ e ∈ (raiseAll nameOf w).1.mapping, e.1 = nameOf p) ∧
+    (raiseAll nameOf w).2 ≠ .valueError :=
+  ⟨raiseAll_exception_iff nameOf w, raiseAll_not_valueError nameOf w⟩
+
+end Wiring
